@@ -15,11 +15,13 @@ import (
 
 // checkPoints: the non-paged ledger queries over all addresses (known, unknown, contract), all stored hashes plus unknown
 // ones, and timestamps around every momentum.
+var pointSeq int
+
 func checkPoints(c *xs.Ctx, r *xs.Result, ci *chainIndex) {
 	n := ci.n
 	ledger := api.NewLedgerApi(&zAdapter{n})
 	viol := func(method, key, what string) {
-		r.Violate("C18:"+method+":"+key, fmt.Sprintf("chain %q %s: %s", ci.name, method, what), map[string]interface{}{"part": "a-point", "cell": cellSpec{Chain: ci.name}})
+		r.Violate("C18:"+method+":"+key, fmt.Sprintf("chain %q %s: %s", ci.name, method, what), map[string]interface{}{"tier": curTier, "part": "a-point", "cell": cellSpec{Chain: ci.name}})
 	}
 	guard := func(method string, f func()) {
 		defer func() {
@@ -29,6 +31,8 @@ func checkPoints(c *xs.Ctx, r *xs.Result, ci *chainIndex) {
 		}()
 		r.Count("a_evaluations", 1)
 		r.Count("a_point_queries", 1)
+		pointSeq++
+		r.Add("nontrivial", digest([]byte(fmt.Sprintf("p|%s|%s|%d", ci.name, method, pointSeq))))
 		f()
 	}
 	tokens := map[types.ZenonTokenStandard]bool{}
